@@ -102,3 +102,33 @@ Theorem C10_code_write_strings :
        ret (JList (map (fun p : string * pcontract => write_entry_strings to_str_list (fst p) (snd p)) cs)).
 Proof. exact @write_strings_eq. Qed.
 Print Assumptions C10_code_write_strings.
+
+(* ==== T1 tie (string printer) ==== *)
+Require Import PyPrint PrinterGen PrinterGenBase PrinterGenOpposite PrinterGenLhs PrinterGenFold.
+(* T1 tie: the string printer of serializer.py (polyhedral_term_list_to_strings with its partner search and pair folding, _are_polyhedral_terms_opposite, _are_numbers_approximatively_equal with the two module tolerances, _lhs_str, _number_to_string) and PolyhedralTermList.to_str_list as translated ON THIS RUN (gen/PrinterGen.v; the %.4g formatting and np.isclose are the named primitives model_prims = fmt4 / isclose_fl) ARE model/Printer.v, about which the printing theorems above and in props/C10b.v speak. proofs/PrinterGen*.v *)
+Theorem C10_code_to_str_list :
+  forall ts : list pterm, Forall wft ts -> PolyhedralTermList_to_str_list ts = ret (to_str_list ts).
+Proof. exact @to_str_list_eq. Qed.
+Print Assumptions C10_code_to_str_list.
+Theorem C10_code_term_list_to_strings :
+  forall terms : list pterm,
+       Forall wft terms -> serializer_polyhedral_term_list_to_strings terms = ret (term_list_to_strings terms).
+Proof. exact @term_list_to_strings_eq. Qed.
+Print Assumptions C10_code_term_list_to_strings.
+Theorem C10_code_terms_opposite :
+  forall self other : pterm,
+       serializer__are_polyhedral_terms_opposite self other = ret (terms_opposite self other).
+Proof. exact @terms_opposite_eq. Qed.
+Print Assumptions C10_code_terms_opposite.
+Theorem C10_code_numbers_approximately_equal :
+  forall v1 v2 : Q, serializer__are_numbers_approximatively_equal v1 v2 = approx_equal v1 v2.
+Proof. exact @are_numbers_approximatively_equal_eq. Qed.
+Print Assumptions C10_code_numbers_approximately_equal.
+Theorem C10_code_lhs_str :
+  forall t : pterm, serializer__lhs_str t = lhs_str t.
+Proof. exact @lhs_str_eq. Qed.
+Print Assumptions C10_code_lhs_str.
+Theorem C10_code_number_to_string :
+  forall n : Q, serializer__number_to_string n = fmt4 n.
+Proof. exact @number_to_string_eq. Qed.
+Print Assumptions C10_code_number_to_string.
